@@ -227,3 +227,208 @@ Proof.
   - eapply cbor_Int64_int; eauto.
   - eapply cbor_Uint64_int; eauto.
 Qed.
+
+(* ---- simple ---- *)
+Lemma simple_decInteger_ok : forall bd r ui neg,
+  0 <= bd < 256 -> bytes_ok r -> simple_decInteger bd r = Ok (ui, neg, true) ->
+  0 <= ui < 2 ^ 64 /\ simple_spec (bd :: r) = Some (NInt (if neg then - (ui + 0) else ui)).
+Proof.
+  intros bd r ui neg Hbd Hr H. unfold simple_decInteger in H. unfold simple_spec.
+  unfold simpleVdPosInt, simpleVdNegInt in H.
+  repeat match type of H with
+  | context [if ?c then _ else _] => destruct c eqn:?; cbn [bind] in H
+  end.
+  all: try discriminate.
+  all: repeat match goal with |- context [if ?c then _ else _] => destruct c eqn:?; try lia end.
+  all: take_in_goal Hr.
+  all: try congruence.
+  all: cbn [omap].
+  all: try (inversion H; subst; clear H; pw; split; [lia|]; repeat f_equal; lia).
+Qed.
+
+Lemma simple_decInteger_notint : forall bd r ui neg n,
+  0 <= bd < 256 -> simple_decInteger bd r = Ok (ui, neg, false) -> simple_spec (bd :: r) <> Some (NInt n).
+Proof.
+  intros bd r ui neg n Hbd H. unfold simple_decInteger in H. unfold simple_spec.
+  unfold simpleVdPosInt, simpleVdNegInt in H.
+  repeat match type of H with
+  | context [if ?c then _ else _] => destruct c eqn:?
+  end.
+  all: try (match type of H with bind ?t _ = _ => destruct t; cbn [bind] in H; discriminate end).
+  all: repeat match goal with |- context [if ?c then _ else _] => destruct c eqn:?; try lia end.
+  all: try discriminate.
+  all: match goal with |- omap _ ?t <> _ => destruct t; cbn [omap]; discriminate end.
+Qed.
+
+Lemma simple_int_all : forall k bs x n,
+  bytes_ok bs -> is_int_kind k = true -> decode simple k bs = Ok x -> simple_spec bs = Some (NInt n) ->
+  x = n /\ kind_lo k <= x < kind_hi k.
+Proof.
+  intros k bs x n Hb Hk H Hs. destruct bs as [|bd r]; [discriminate|].
+  inversion Hb as [|? ? Hbd Hr]; subst.
+  assert (HI : forall v, simple_Int64 bd r = Ok v -> v = n /\ - 2 ^ 63 <= v < 2 ^ 63).
+  { intros v E. unfold simple_Int64 in E. destruct (simple_nil bd) eqn:Nl.
+    { unfold simple_nil, simpleVdNil in Nl. assert (bd = 1) by lia. subst. cbn in Hs. discriminate. }
+    destruct (simple_decInteger bd r) as [[[ui neg] ok]| |] eqn:E2; cbn [bind] in E; try discriminate.
+    destruct ok.
+    - destruct (simple_decInteger_ok bd r ui neg Hbd Hr E2) as [Hu Hsp].
+      rewrite Hsp in Hs. inversion Hs; subst; clear Hs.
+      apply hlp_int64_int in E; [|exact Hu]. destruct neg; destruct E as [-> E]; split; lia.
+    - exfalso. eapply simple_decInteger_notint; eauto. }
+  assert (HU : forall v, simple_Uint64 bd r = Ok v -> v = n /\ 0 <= v < 2 ^ 64).
+  { intros v E. unfold simple_Uint64 in E. destruct (simple_nil bd) eqn:Nl.
+    { unfold simple_nil, simpleVdNil in Nl. assert (bd = 1) by lia. subst. cbn in Hs. discriminate. }
+    destruct (simple_decInteger bd r) as [[[ui neg] ok]| |] eqn:E2; cbn [bind] in E; try discriminate.
+    destruct ok.
+    - destruct (simple_decInteger_ok bd r ui neg Hbd Hr E2) as [Hu Hsp].
+      rewrite Hsp in Hs. inversion Hs; subst; clear Hs.
+      apply hlp_uint64_int in E. destruct E as [-> ->]. split; lia.
+    - exfalso. eapply simple_decInteger_notint; eauto. }
+  unfold decode in H. cbn [dInt64 dUint64 dFloat64 simple] in H.
+  destruct k; try discriminate; cbn [kind_lo kind_hi];
+    try (destruct (simple_Int64 bd r) as [v| |] eqn:E; [|unfold narrow_int in H; cbn [bind] in H; discriminate ..];
+         destruct (HI v eq_refl) as [-> Hv];
+         apply narrow_int_ok in H; [|unfold wordBits; tauto|exact Hv]; cbn in H; exact H);
+    try (destruct (simple_Uint64 bd r) as [v| |] eqn:E; [|unfold narrow_uint in H; cbn [bind] in H; discriminate ..];
+         destruct (HU v eq_refl) as [-> Hv];
+         apply narrow_uint_ok in H; [|unfold wordBits; tauto|exact Hv]; cbn in H; exact H).
+  - apply HI; assumption.
+  - apply HU; assumption.
+Qed.
+
+(* ---- binc ---- *)
+Lemma binc_decInteger_ok : forall bd r ui neg,
+  0 <= bd < 256 -> bytes_ok r -> binc_decInteger bd r = Ok (ui, neg, true) ->
+  0 <= ui < 2 ^ 64 /\ binc_spec (bd :: r) = Some (NInt (if neg then - (ui + 0) else ui)).
+Proof.
+  intros bd r ui neg Hbd Hr H. unfold binc_decInteger, binc_decUint in H. unfold binc_spec.
+  unfold shr in H. rewrite Z.shiftr_div_pow2 in H by lia.
+  change 15 with (Z.ones 4) in H. rewrite Z.land_ones in H by lia. change (2 ^ 4) with 16 in *.
+  unfold bincVdPosInt, bincVdNegInt, bincVdSmallInt, bincVdSpecial, bincSpZero, bincSpNegOne in H.
+  repeat match type of H with
+  | context [if ?c then _ else _] => destruct c eqn:?; cbn [bind] in H
+  end.
+  all: try discriminate.
+  all: repeat match goal with |- context [if ?c then _ else _] => destruct c eqn:?; try lia end.
+  all: repeat match goal with E : (?b mod 16 =? ?c) = true |- _ => apply Z.eqb_eq in E; rewrite E in * end.
+  all: try match goal with |- context [Z.to_nat (?a + 1)] =>
+         let n := eval compute in (Z.to_nat (a + 1)) in change (Z.to_nat (a + 1)) with n end.
+  all: take_in_goal Hr.
+  all: try congruence.
+  all: cbn [omap].
+  all: try (inversion H; subst; clear H; pw; split; [lia|]; repeat f_equal; lia).
+Qed.
+
+Lemma binc_decInteger_notint : forall bd r ui neg n,
+  0 <= bd < 256 -> binc_decInteger bd r = Ok (ui, neg, false) -> binc_spec (bd :: r) <> Some (NInt n).
+Proof.
+  intros bd r ui neg n Hbd H. unfold binc_decInteger in H. unfold binc_spec.
+  unfold shr in H. rewrite Z.shiftr_div_pow2 in H by lia.
+  change 15 with (Z.ones 4) in H. rewrite Z.land_ones in H by lia. change (2 ^ 4) with 16 in *.
+  unfold bincVdPosInt, bincVdNegInt, bincVdSmallInt, bincVdSpecial, bincSpZero, bincSpNegOne in H.
+  repeat match type of H with
+  | context [if ?c then _ else _] => destruct c eqn:?
+  end.
+  all: try (match type of H with bind ?t _ = _ => destruct t; cbn [bind] in H; discriminate end).
+  all: try discriminate.
+  all: repeat match goal with |- context [if ?c then _ else _] => destruct c eqn:?; try lia end.
+  all: try discriminate.
+  all: match goal with |- omap _ ?t <> _ => destruct t; cbn [omap]; discriminate end.
+Qed.
+
+Lemma binc_int_all : forall k bs x n,
+  bytes_ok bs -> is_int_kind k = true -> decode binc k bs = Ok x -> binc_spec bs = Some (NInt n) ->
+  x = n /\ kind_lo k <= x < kind_hi k.
+Proof.
+  intros k bs x n Hb Hk H Hs. destruct bs as [|bd r]; [discriminate|].
+  inversion Hb as [|? ? Hbd Hr]; subst.
+  assert (HI : forall v, binc_Int64 bd r = Ok v -> v = n /\ - 2 ^ 63 <= v < 2 ^ 63).
+  { intros v E. unfold binc_Int64 in E. destruct (binc_nil bd) eqn:Nl.
+    { unfold binc_nil, bincBdNil in Nl. assert (bd = 0) by lia. subst. cbn in Hs. discriminate. }
+    destruct (binc_decInteger bd r) as [[[ui neg] ok]| |] eqn:E2; cbn [bind] in E; try discriminate.
+    destruct ok.
+    - destruct (binc_decInteger_ok bd r ui neg Hbd Hr E2) as [Hu Hsp].
+      rewrite Hsp in Hs. inversion Hs; subst; clear Hs.
+      apply hlp_int64_int in E; [|exact Hu]. destruct neg; destruct E as [-> E]; split; lia.
+    - exfalso. eapply binc_decInteger_notint; eauto. }
+  assert (HU : forall v, binc_Uint64 bd r = Ok v -> v = n /\ 0 <= v < 2 ^ 64).
+  { intros v E. unfold binc_Uint64 in E. destruct (binc_nil bd) eqn:Nl.
+    { unfold binc_nil, bincBdNil in Nl. assert (bd = 0) by lia. subst. cbn in Hs. discriminate. }
+    destruct (binc_decInteger bd r) as [[[ui neg] ok]| |] eqn:E2; cbn [bind] in E; try discriminate.
+    destruct ok.
+    - destruct (binc_decInteger_ok bd r ui neg Hbd Hr E2) as [Hu Hsp].
+      rewrite Hsp in Hs. inversion Hs; subst; clear Hs.
+      apply hlp_uint64_int in E. destruct E as [-> ->]. split; lia.
+    - exfalso. eapply binc_decInteger_notint; eauto. }
+  unfold decode in H. cbn [dInt64 dUint64 dFloat64 binc] in H.
+  destruct k; try discriminate; cbn [kind_lo kind_hi];
+    try (destruct (binc_Int64 bd r) as [v| |] eqn:E; [|unfold narrow_int in H; cbn [bind] in H; discriminate ..];
+         destruct (HI v eq_refl) as [-> Hv];
+         apply narrow_int_ok in H; [|unfold wordBits; tauto|exact Hv]; cbn in H; exact H);
+    try (destruct (binc_Uint64 bd r) as [v| |] eqn:E; [|unfold narrow_uint in H; cbn [bind] in H; discriminate ..];
+         destruct (HU v eq_refl) as [-> Hv];
+         apply narrow_uint_ok in H; [|unfold wordBits; tauto|exact Hv]; cbn in H; exact H).
+  - apply HI; assumption.
+  - apply HU; assumption.
+Qed.
+
+Lemma mp_Uint64_int : forall bd r x n,
+  0 <= bd < 256 -> bytes_ok r -> mp_Uint64 bd r = Ok x -> msgpack_spec (bd :: r) = Some (NInt n) ->
+  x = n /\ 0 <= x < 2 ^ 64.
+Proof.
+  intros bd r x n Hbd Hr H Hs. unfold mp_Uint64, mp_nil, mp_f32_int, mp_f64_int, mp_nonneg in H. unfold msgpack_spec in Hs.
+  unfold mpNil, mpUint8, mpUint16, mpUint32, mpUint64, mpInt8, mpInt16, mpInt32, mpInt64, mpFloat, mpDouble,
+    mpPosFixNumMin, mpPosFixNumMax, mpNegFixNumMin, mpNegFixNumMax in *.
+  repeat match type of H with
+  | (if ?c then _ else _) = _ => destruct c eqn:?
+  end.
+  all: try discriminate.
+  all: repeat match type of Hs with context [if ?c then _ else _] => destruct c eqn:?; try lia end.
+  all: try discriminate.
+  all: repeat rd_step.
+  all: try match goal with E : take ?k ?r = Some ?v |- _ =>
+         rewrite E in Hs; cbn [omap] in Hs; pose proof (take_bound _ _ _ Hr E) end.
+  all: try (inversion Hs; subst; clear Hs; cbn [bind] in H; unfold wraps, twos in *; pw; brk; try discriminate;
+            inversion H; subst; clear H; lia).
+  all: try (destruct (readv 4 r) as [v| |] eqn:E; cbn [bind] in H; try discriminate;
+            apply readv_take in E; rewrite E in Hs; cbn [omap] in Hs; discriminate).
+  all: try (destruct (readv 8 r) as [v| |] eqn:E; cbn [bind] in H; try discriminate;
+            apply readv_take in E; rewrite E in Hs; cbn [omap] in Hs; discriminate).
+Qed.
+
+Lemma msgpack_int_all : forall k bs x n,
+  bytes_ok bs -> is_int_kind k = true -> decode msgpack k bs = Ok x -> msgpack_spec bs = Some (NInt n) ->
+  x = n /\ kind_lo k <= x < kind_hi k.
+Proof.
+  intros k bs x n Hb Hk H Hs. destruct bs as [|bd r]; [discriminate|].
+  inversion Hb as [|? ? Hbd Hr]; subst.
+  assert (HI : forall v, mp_Int64 bd r = Ok v -> v = n /\ - 2 ^ 63 <= v < 2 ^ 63).
+  { intros v E. pose proof (mp_Int64_ok bd r v Hbd Hr E) as P. rewrite Hs in P. exact P. }
+  assert (HU : forall v, mp_Uint64 bd r = Ok v -> v = n /\ 0 <= v < 2 ^ 64).
+  { intros v E. eapply mp_Uint64_int; eauto. }
+  unfold decode in H. cbn [dInt64 dUint64 dFloat64 msgpack] in H.
+  destruct k; try discriminate; cbn [kind_lo kind_hi];
+    try (destruct (mp_Int64 bd r) as [v| |] eqn:E; [|unfold narrow_int in H; cbn [bind] in H; discriminate ..];
+         destruct (HI v eq_refl) as [-> Hv];
+         apply narrow_int_ok in H; [|unfold wordBits; tauto|exact Hv]; cbn in H; exact H);
+    try (destruct (mp_Uint64 bd r) as [v| |] eqn:E; [|unfold narrow_uint in H; cbn [bind] in H; discriminate ..];
+         destruct (HU v eq_refl) as [-> Hv];
+         apply narrow_uint_ok in H; [|unfold wordBits; tauto|exact Hv]; cbn in H; exact H).
+  - apply HI; assumption.
+  - apply HU; assumption.
+Qed.
+
+(* ---- the four binary formats together ---- *)
+Inductive binfmt := Fcbor | Fmsgpack | Fbinc | Fsimple.
+Definition drv (f : binfmt) : driver :=
+  match f with Fcbor => cbor | Fmsgpack => msgpack | Fbinc => binc | Fsimple => simple end.
+Definition spec (f : binfmt) : list Z -> option num :=
+  match f with Fcbor => cbor_spec | Fmsgpack => msgpack_spec | Fbinc => binc_spec | Fsimple => simple_spec end.
+
+Lemma int_all : forall f k bs x n,
+  bytes_ok bs -> is_int_kind k = true -> decode (drv f) k bs = Ok x -> spec f bs = Some (NInt n) ->
+  x = n /\ kind_lo k <= x < kind_hi k.
+Proof.
+  intros f; destruct f; cbn [drv spec];
+    [apply cbor_int_all | apply msgpack_int_all | apply binc_int_all | apply simple_int_all].
+Qed.
